@@ -165,10 +165,36 @@ class HostBase:
                 return Const(len(v.items))
             return Term("len", (v,), self.ctx.new_id())
         if isinstance(v, (Opaque, Term)):
-            return IntV(Lin.var(self.len_var(("op", v.id), getattr(v, "label", v.__class__.__name__), origin=v)))
+            r = IntV(Lin.var(self.len_var(("op", v.id), getattr(v, "label", v.__class__.__name__), origin=v)))
+            if self._nonempty_match_text(v):
+                self.ctx.assume_le0(Lin.k(1) - r.lin)
+            return r
         if isinstance(v, (IntV, EnumV, FuncV, BoundMethod, ClassV)):
             raise self.raise_("TypeError", "object has no len()", node)
         raise self.unsupported(node, f"len of {v!r}")
+
+    def _nonempty_match_text(self, v: AV) -> bool:
+        """`m.group()` / `m.group(0)` / `m[0]` of a match of a constant pattern that cannot match the empty string."""
+        if not (isinstance(v, Term) and v.op == "call" and len(v.args) >= 3):
+            return False
+        recv, name, args = v.args[0], v.args[1], v.args[2]
+        if name != "group" or not (args == () or (len(args) == 1 and isinstance(args[0], Const) and args[0].value == 0)):
+            return False
+        if not (isinstance(recv, Term) and recv.op in ("re.match", "re.fullmatch", "re.search") and recv.args):
+            return False
+        comp = recv.args[0]
+        if not (isinstance(comp, Term) and comp.op == "re.compile" and comp.args and isinstance(comp.args[0], Const) and isinstance(comp.args[0].value, str)):
+            return False
+        pat = comp.args[0].value
+        cache = self.__dict__.setdefault("_nullable_cache", {})
+        if pat not in cache:
+            try:
+                from .automata import accepts, from_sre
+
+                cache[pat] = bool(accepts(from_sre(pat), ""))
+            except Exception:  # noqa: BLE001
+                cache[pat] = True  # unknown: may be empty
+        return not cache[pat]
 
     # --------------------------------------------------------------- truth
     def truth(self, v: AV, node: Any = None) -> bool:
